@@ -103,18 +103,25 @@ Definition derive_finite_stmt : Prop :=
 
 Definition vec_ok (n : nat) (cs : list nat) : Prop := length cs = n /\ in_domain cs.
 
-(* C02: the verdict *)
+(* names of the function are proper identifiers *)
+Definition func_ok (f : func_src) : Prop := Forall (fun v => v <> EmptyString) (func_vars f).
+
+(* C02: the verdict.  (3^k vectors: k = number of binary-operation sites of the function) *)
 Definition verdict_sound_stmt : Prop :=
-  forall f stop res, analyse f stop = ROk res -> fr_infinite res = true ->
-    forall cs, in_domain cs -> fst (derive_func f cs) = None.
+  forall f stop res, func_ok f -> analyse f stop = ROk res -> fr_infinite res = true ->
+    forall cs, vec_ok (sites f) cs -> fst (derive_func f cs) = None.
 
 Definition verdict_complete_stmt : Prop :=
-  forall f stop res, analyse f stop = ROk res -> fr_infinite res = false ->
+  forall f stop res, func_ok f -> analyse f stop = ROk res -> fr_infinite res = false -> 0 < fr_index res ->
     exists cs, vec_ok (fr_index res) cs /\ fst (derive_func f cs) <> None.
+
+(* a function without binary-operation sites always has its (single, empty-vector) derivation *)
+Definition no_sites_derivable_stmt : Prop :=
+  forall f, func_ok f -> sites f = 0 -> fst (derive_func f []) <> None.
 
 (* C01: degree, valid vectors and matrices of a function reported not infinite *)
 Definition finite_result_stmt : Prop :=
-  forall f stop res, analyse f stop = ROk res -> fr_infinite res = false ->
+  forall f stop res, func_ok f -> analyse f stop = ROk res -> fr_infinite res = false ->
     fr_index res = sites f /\
     fr_vars res = func_vars f /\
     exists r, fr_rel res = Some r /\ rvars r = func_vars f /\
@@ -128,3 +135,9 @@ Definition modes_agree_stmt : Prop :=
   forall f r1 r2, analyse f true = ROk r1 -> analyse f false = ROk r2 ->
     fr_infinite r1 = fr_infinite r2 /\
     (fr_infinite r1 = false -> r1 = r2).
+
+(* C15: which fields a result carries *)
+Definition result_fields_stmt : Prop :=
+  forall f stop res, analyse f stop = ROk res ->
+    (fr_infinite res = true -> (fr_rel res <> None <-> stop = false)) /\
+    (fr_infinite res = false -> fr_rel res <> None /\ fr_delta_infty res = false).
